@@ -26,12 +26,20 @@ RootPos(e) == [board |-> [i \in 1..64 |-> e.b[i]], stm |-> e.stm, castle |-> Cas
 Mask(cs) == (IF 0 \in cs THEN 1 ELSE 0) + (IF 1 \in cs THEN 2 ELSE 0)
             + (IF 2 \in cs THEN 4 ELSE 0) + (IF 3 \in cs THEN 8 ELSE 0)
 
-\* What the specification expects to be observable in state (p, st) reached by op/mv.
-Obs(op, mv, uci, p, st) ==
-    [op |-> op, mv |-> mv, uci |-> uci,
+\* What the specification expects to be observable in state (p, st) reached by op/mv.  alts: for a promotion, the
+\* other promotion pieces of the same pawn move with the states they lead to (a GUI taking the move back and choosing
+\* another piece sends the same squares with another letter).
+ObsA(op, mv, uci, p, st, alts) ==
+    [op |-> op, mv |-> mv, uci |-> uci, alts |-> alts,
      b |-> [i \in 1..64 |-> p.board[i]], stm |-> p.stm, cr |-> Mask(p.castle),
      ep |-> p.ep, hmc |-> p.hmc, pl |-> p.plies, fen |-> FenOf(p), hl |-> Len(st),
      replies |-> IF MODE = "game" THEN {UciOf(m) : m \in Legal(p)} ELSE {}]
+Obs(op, mv, uci, p, st) == ObsA(op, mv, uci, p, st, {})
+Alts(p, m) ==
+    IF MODE = "game" /\ m.promo # 0
+    THEN {[uci |-> UciOf(x), fen |-> FenOf(Make(p, x)), replies |-> {UciOf(y) : y \in Legal(Make(p, x))}] :
+             x \in {y \in Legal(p) : y.from = m.from /\ y.to = m.to /\ y.promo # m.promo}}
+    ELSE {}
 
 Init == \E i \in 1..Len(Roots) :
            LET p == RootPos(Roots[i])
@@ -43,7 +51,10 @@ Init == \E i \in 1..Len(Roots) :
 Special(ms) == {m \in ms : m.kind # 0 \/ m.promo # 0}
 Log(op, mv, uci) == hist' = Append(hist, Obs(op, mv, uci, pos', stack')) /\ UNCHANGED done
 
-DoMove(ms) == \E m \in {RandomElement(ms)} : Move(m) /\ Log("make", PackMove(m), UciOf(m))
+DoMove(ms) == \E m \in {RandomElement(ms)} :
+                 /\ Move(m)
+                 /\ hist' = Append(hist, ObsA("make", PackMove(m), UciOf(m), pos', stack', Alts(pos, m)))
+                 /\ UNCHANGED done
 
 Step ==
     LET kk == {RandomElement(1..20)}
